@@ -230,25 +230,33 @@ PROPS.update({
                         "Char.isDigit / isUpper / isAlpha / isAlphanum of Lean core are the ASCII classes the Rust is_ascii_* predicates test"],
     },
     "C02": {
-        "streams": ["fields"],
+        "streams": ["fields", "c02msg"],
         "stream_args": {"fields": ["--prop", "C02", "--modelled", "@modelled"]},
         "driver": True,
         "extractors": [],
         "instances": 0,
         "rule": FIELD_RULE + "Oracle: every accepted content is serialised, re-parsed (an enum through the option letter it wrote) and must give an "
-                "equal value (JSON) and the same text again.",
+                "equal value (JSON) and the same text again. c02msg: messages of all 30 types from the layout grammar with contents from the "
+                "library's spellings and from the documented formats at boundary lengths, LF / CRLF, input and output application headers, "
+                "no / empty / populated blocks 3 and 5: parse, serialise, re-parse, compare every header, trailer and field value, serialise again "
+                "and compare byte for byte.",
         "modelled": "as C05; the message-level statement (re-tokenising a serialised message gives the same fields) is proved over the C01 extraction model",
         "trusted_base": [KERNEL, HARNESS, FIELD_MODEL, MODEL_KERNEL],
         "assumptions": ["values are compared through serde_json::to_value (every component is serialised: no #[serde(skip)] in src/fields)"],
     },
     "C07": {
-        "streams": ["fields"],
+        "streams": ["fields", "total"],
         "stream_args": {"fields": ["--prop", "C07", "--modelled", "@modelled"]},
         "driver": True,
         "extractors": [],
         "instances": 0,
         "rule": FIELD_RULE + "Oracle: no content makes any of the 114 parsers (or the serialiser / serde codecs of the value it returns) panic "
-                "(catch_unwind per case).",
+                "(catch_unwind per case). total: valid messages of all 30 types truncated at many offsets, with 2/3/4-byte characters replaced / "
+                "inserted at many positions, with shuffled block markers, tiny inputs (thorough: 1 MB line, 70 000 fields) through parse_auto, "
+                "parse::<T>, parse_with_errors, extract_block(1..5), parse_from_block4, the four header parsers and the parse / validate plugins; "
+                "every error rendered with Display, debug_report, brief_message, format_with_context; every systematic JSON mutant of the "
+                "scenarios (incl. short / non-ASCII currencies) through from_value, validate, to_mt_message, to_value; each under catch_unwind "
+                "and a quadratic wall-clock budget.",
         "modelled": "panic-aware models (explicit `panic` outcome for byte slicing off a character boundary / unwrap on None) of the modelled field types",
         "trusted_base": [KERNEL, HARNESS, FIELD_MODEL],
         "assumptions": ["time and memory bounds, allocator aborts and stack depth are outside the model (labelled partial)"],
